@@ -239,7 +239,8 @@ arguments that fit the format of its code (regenerated table) -/
 
 /-- file of origin, entry point, and arguments fitting the format -/
 def OKd (p : String) (d : Diag) : Prop :=
-  d.file = p.toList ∧ d.via = .symbol ∧ Diag.fits (Diag.parseFmt (Diag.formatOf d.code)) d.args = true
+  d.file = p.toList ∧ d.via = .symbol ∧ Diag.fits (Diag.parseFmt (Diag.formatOf d.code)) d.args = true ∧
+  d.code ≠ LibErrors.SUBORDINATE_FAILED
 
 def AllOK (p : String) (ds : List Diag) : Prop := ∀ d ∈ ds, OKd p d
 
@@ -266,7 +267,7 @@ theorem allOK_map {α : Type} {p : String} (l : List α) (g : α → Diag) (h : 
 
 /-- closes `OKd p (mk p CODE line [args…])` for a concrete code and argument shapes -/
 macro "okd" : tactic =>
-  `(tactic| (refine ⟨rfl, rfl, ?_⟩
+  `(tactic| (refine ⟨rfl, rfl, ?_, (by simp only [mk]; decide)⟩
              apply Diag.fits_of_codeFits
              simp only [mk, sArg, List.map, Diag.Arg.kind]
              decide))
@@ -367,7 +368,7 @@ theorem pass2_ok (f : File) (fb : Bool) (s : Schema) : AllOK (fileOf f s) (pass2
 
 theorem subtypeResolve_ok (p : String) (l : Nat) (n dn : String) (dl : Nat) :
     OKd p (mk p LibErrors.SUBTYPE_RESOLVE l (subtypeResolveArgs n dn dl)) := by
-  refine ⟨rfl, rfl, ?_⟩
+  refine ⟨rfl, rfl, ?_, (by simp only [mk]; decide)⟩
   have h : ResolveGen.subtypeResolvePassesName = true := by decide
   apply Diag.fits_of_codeFits
   simp only [mk, subtypeResolveArgs, h, if_true, sArg, List.map, Diag.Arg.kind]
@@ -391,7 +392,7 @@ theorem pass3_ok (p : String) (env : Env) (s : Schema) : AllOK p (pass3 p env s)
         · simp at hd; subst hd; exact subtypeResolve_ok _ _ _ _ _
         · simp at hd; subst hd; okd
   | type t =>
-    simp only
+    simp only [typeDeclDiags]
     split
     · apply allOK_append
       · apply allOK_append
@@ -458,37 +459,40 @@ theorem uniqueDiags_ok (p : String) (s : Schema) (e : Entity) (fuel : Nat) (u : 
         · exact allOK_append hn hu
         · exact allOK_append (allOK_append (allOK_cons (by okd) (allOK_one (by okd))) hu) hn
 
+theorem entityPass4_ok (p : String) (env : Env) (s : Schema) (e : Entity) : AllOK p (entityPass4 p env s e) := by
+  simp only [entityPass4]
+  refine allOK_append (allOK_append (allOK_append ?_ ?_) ?_) ?_
+  · simp only [missingSuperDiags]
+    apply allOK_filterMap; intro x _ d hd
+    split at hd
+    · split at hd
+      · simp at hd
+      · simp at hd; subst hd; okd
+    · simp at hd
+  · apply allOK_flatMap; intro a _
+    apply allOK_append (typeRefDiags_ok _ _ _ _)
+    split
+    · exact inverseDiags_ok _ _ _ _
+    · exact allOK_nil _
+  · apply allOK_flatMap; intro u _; exact uniqueDiags_ok _ _ _ _ _
+  · simp only [subsuperCycleDiags]
+    split
+    · simp only [nestingDiags]
+      split
+      · exact allOK_one (by okd)
+      · exact allOK_nil _
+    · exact cycleDiags_ok _ _ _ _ _ (fun _ _ => by okd) (fun _ _ => by okd) _
+
 theorem pass4_ok (p : String) (env : Env) (s : Schema) : AllOK p (pass4 p env s) := by
   apply allOK_flatMap
   intro decl _
   cases decl with
   | type t =>
-    simp only
+    simp only [selectCycleDiags]
     split
     · exact cycleDiags_ok _ _ _ _ _ (fun _ _ => by okd) (fun _ _ => by okd) _
     · exact allOK_nil _
-  | entity e =>
-    simp only
-    refine allOK_append (allOK_append (allOK_append ?_ ?_) ?_) ?_
-    · simp only [missingSuperDiags]
-      apply allOK_filterMap; intro x _ d hd
-      split at hd
-      · split at hd
-        · simp at hd
-        · simp at hd; subst hd; okd
-      · simp at hd
-    · apply allOK_flatMap; intro a _
-      apply allOK_append (typeRefDiags_ok _ _ _ _)
-      split
-      · exact inverseDiags_ok _ _ _ _
-      · exact allOK_nil _
-    · apply allOK_flatMap; intro u _; exact uniqueDiags_ok _ _ _ _ _
-    · split
-      · simp only [nestingDiags]
-        split
-        · exact allOK_one (by okd)
-        · exact allOK_nil _
-      · exact cycleDiags_ok _ _ _ _ _ (fun _ _ => by okd) (fun _ _ => by okd) _
+  | entity e => exact entityPass4_ok _ _ _ _
   | func _ => exact allOK_nil _
   | syntaxError _ _ _ => exact allOK_nil _
 
